@@ -95,13 +95,17 @@ def gen(rng, tier):
     two_typ = rng.random() < 0.4
     # a parent so that children_bp has something to sum
     feats.append(mf(["chr1", "src", "gene", 1, 8, ".", "+", "."], [["ID", ["g"]]]))
+    via_mrna = rng.random() < 0.3
+    if via_mrna:
+        # files that list both the transcript and the gene as parents of an exon: related to the gene at two levels, still one child
+        feats.append(mf(["chr1", "src", "mRNA", 1, 8, ".", "+", "."], [["ID", ["m"]], ["Parent", ["g"]]]))
     for i in range(n):
         s = rng.randint(1, 8)
         e = rng.randint(s, 8)
-        attrs = [["ID", ["i%d" % i]], ["Parent", ["g"]]]
+        attrs = [["ID", ["i%d" % i]], ["Parent", ["g"] if not via_mrna or rng.random() < 0.4 else ["m", "g"]]]
         feats.append(mf([rng.choice(["chr2", "Chr1"]) if two_seq and rng.random() < 0.5 else "chr1", rng.choice(["src", "alt"]),
                          "CDS" if two_typ and rng.random() < 0.4 else "exon", s, e, ".",
-                         "-" if two_str and rng.random() < 0.4 else "+", "."], attrs))
+                         rng.choice(["-", "-", ".", "?"]) if two_str and rng.random() < 0.4 else "+", "."], attrs))
     if rng.random() < 0.4:
         # a second gene with children of its own: what children_bp('g') must not count
         feats.append(mf(["chr1", "src", "gene", 1, 8, ".", "+", "."], [["ID", ["g2"]]]))
@@ -109,6 +113,12 @@ def gen(rng, tier):
             s = rng.randint(1, 8)
             e = rng.randint(s, 8)
             feats.append(mf(["chr1", "src", rng.choice(["exon", "CDS"]), s, e, ".", "+", "."], [["ID", ["j%d" % j]], ["Parent", ["g2"]]]))
+    if rng.random() < 0.25:
+        # insertion sites: zero-length features written start = end + 1 (a type of their own, never selected for merging)
+        feats.append(mf(["chr1", "src", "gene", 1, 8, ".", "+", "."], [["ID", ["g3"]]]))
+        for j in range(rng.randint(1, 3)):
+            s = rng.randint(2, 8)
+            feats.append(mf(["chr1", "src", "insertion_site", s, s - 1 if rng.random() < 0.7 else s, ".", "+", "."], [["ID", ["z%d" % j]], ["Parent", ["g3"]]]))
     ops = []
     merged_all = False
     for _ in range(rng.randint(2, 6)):
@@ -136,7 +146,10 @@ def gen(rng, tier):
                                    "featuretype": rng.choice([["exon", "CDS"], "exon"])}})
             ops.append({"op": "interleave", "merges": ms, "schedule": [rng.randrange(3) for _ in range(rng.randint(2, 16))]})
         elif k == "children_bp":
-            ops.append({"op": "children_bp", "ftype": rng.choice(["exon", "CDS", "exon", ["exon", "CDS"], ["CDS", "exon"]]), "merge": rng.random() < 0.6})
+            if any(f["cols"][2] == "insertion_site" for f in feats) and rng.random() < 0.4:
+                ops.append({"op": "children_bp", "of": "g3", "ftype": "insertion_site", "merge": False})
+            else:
+                ops.append({"op": "children_bp", "ftype": rng.choice(["exon", "CDS", "exon", ["exon", "CDS"], ["CDS", "exon"]]), "merge": rng.random() < 0.6})
         elif k == "merge_all":
             merged_all = True
             ops.append({"op": "merge_all", "exclude": rng.random() < 0.4, "groups": rng.choice([None, None, [["exon"]], [["exon", "CDS"]], [["exon"], ["CDS"]]]),
@@ -343,10 +356,11 @@ def run(case):
                 d = call(node, {"op": "dump", "h": "h"})
                 if not d["ok"]:
                     break
-                kids = [f for f in d["dump"]["features"] if f["id"] in set(d["dump"]["rel"].get("g", {}).get("c1", []) + d["dump"]["rel"].get("g", {}).get("c2", []))
+                of = op.get("of", "g")
+                kids = [f for f in d["dump"]["features"] if f["id"] in set(d["dump"]["rel"].get(of, {}).get("c1", []) + d["dump"]["rel"].get(of, {}).get("c2", []))
                         and f["cols"][2] in (op["ftype"] if isinstance(op["ftype"], list) else [op["ftype"]])]
-                r = call(node, {"op": "read", "h": "h", "m": "children_bp", "args": ["g"], "kw": {"child_featuretype": op["ftype"], "merge": op["merge"]}})
-                if "g" not in d["dump"]["rel"]:
+                r = call(node, {"op": "read", "h": "h", "m": "children_bp", "args": [of], "kw": {"child_featuretype": op["ftype"], "merge": op["merge"]}})
+                if of not in d["dump"]["rel"]:
                     continue
                 if not r["ok"]:
                     V.append(viol("C16.children_bp", "children_bp raised %s: %s" % (r["exc"], r["msg"]), kind="children_bp_failed"))
